@@ -13,7 +13,7 @@ from harness.opcorr import BIN, UN, grade
 
 BINS = ['gp', 'op', 'ip', 'lc', 'rc', 'sp', 'cp', 'acp', 'rp', 'add', 'sub', 'sw', 'proj', 'div']
 UNS = ['neg', 'reverse', 'involute', 'conjugate', 'hodge', 'unhodge', 'normsq', 'inv', 'polarity', 'unpolarity',
-       'outerexp', 'outersin', 'outercos', 'sqrt']
+       'outerexp', 'outersin', 'outercos', 'outertan', 'sqrt']
 
 
 def ident(f):
@@ -160,8 +160,52 @@ def run(ctx):
                     if tuple(ks_) != tuple(alg.indices_for_grades[gs]):
                         ctx.violation('graded-incomplete', case, list(alg.indices_for_grades[gs]), list(ks_),
                                       key=f'graded-incomplete:{"degenerate" if degenerate else "nondegenerate"}')
+    blades_pass(ctx)
     ctx.assumptions = ['floats only where kingdon itself introduces them (sqrt, outer series): compared to 1e-9',
                        'codegen_symbolcls=sympy.Symbol is slow; dense composite operators are skipped for it in d >= 3']
+
+
+def blades_pass(ctx):
+    """operands taken from `alg.blades` (by name) instead of being built from key tuples: every option set must give the
+    same products of named basis blades as the default options (d = 4 and custom bases, where the canonical order of a
+    grade differs from the binary order)"""
+    import sympy
+    rng = ctx.rng
+    cfgs = [([1, 1, 1, 1], None), ([1, 1, 1, -1], None), ([0, 1, 1], ["e", "e1", "e2", "e0", "e20", "e01", "e12", "e012"]),
+            ([1, 1, 1], ['e', 'e1', 'e2', 'e3', 'e12', 'e31', 'e23', 'e123'])]
+    for sig, basis in cfgs:
+        base_alg = make_algebra(sig, None, basis)
+        names = list(base_alg.canon2bin.keys())
+        pairs = [(a, b) for a in names for b in names]
+        if ctx.quick:
+            pairs = rng.sample(pairs, min(len(pairs), 70))
+        def table(alg):
+            out = {}
+            for a, b in pairs:
+                try:
+                    x, y = alg.blades[a], alg.blades[b]
+                    out[a, b] = ({k: v for k, v in zip((x * y).keys(), (x * y).values()) if v != 0},
+                                 {k: v for k, v in zip((x ^ y).keys(), (x ^ y).values()) if v != 0},
+                                 {k: v for k, v in zip((x - y).keys(), (x - y).values()) if v != 0})
+                except Exception as e:
+                    out[a, b] = 'raise:' + type(e).__name__
+            return out
+        base = table(base_alg)
+        for opts in ({'graded': True}, {'graded': True, 'cse': False}, {'graded': True, 'wrapper': ident}, {'cse': False},
+                     {'codegen_symbolcls': sympy.Symbol}):
+            alg = make_algebra(sig, None, basis, **opts)
+            got = table(alg)
+            for (a, b), e in base.items():
+                case = {'sig': sig, 'basis': basis, 'options': {k: (v if isinstance(v, bool) else str(v)[:20]) for k, v in opts.items()}, 'blades': [a, b]}
+                ctx.case(case, tag='blades:' + ','.join(sorted(opts)))
+                if got[a, b] != e:
+                    degenerate = 0 in sig
+                    if isinstance(got[a, b], str) and opts.get('graded') and degenerate:
+                        key = 'raises:blades:graded:degenerate:any'
+                    else:
+                        key = 'blades:' + ','.join(sorted(opts))
+                    ctx.violation('option-differs', case, str(e)[:300], str(got[a, b])[:300], key=key)
+                    break
 
 
 def optkey(o):
